@@ -2052,6 +2052,29 @@ package restful
 //@ callsite ServiceErrorHandleFunction pair: arg1 == req && arg2 == resp
 //@ callsite ServiceErrorHandleFunction first: calls() == old(calls())
 
+// the default recover handler answers a panic with exactly one 500 and one body write (C10)
+//@ func logStackOnRecover
+//@ props C10
+//@ requires httpWriter != nil
+//@ modifies ghost $g.wstatus, ghost $g.whcalls, ghost $g.accepted, ghost $g.lasterr, ghost $g.wcalls
+//@ ensures one500: statusReceived(httpWriter) == 500 && writeHeaderCalls(httpWriter) == old(writeHeaderCalls(httpWriter)) + 1 && writeCalls(httpWriter) == old(writeCalls(httpWriter)) + 1
+//@ loop 0 invariant same(httpWriter, old(httpWriter))
+
+// swapping the package-wide provider keeps "there is a provider" (C13); swapping the router (C18)
+//@ func SetCompressorProvider
+//@ props C13
+//@ requires p != nil
+//@ modifies &currentCompressorProvider
+//@ ensures same(currentCompressorProvider, p)
+//@ nopanic
+
+//@ func (*Container).Router
+//@ props C04 C18
+//@ requires c != nil
+//@ modifies c.router
+//@ ensures same(c.router, aRouter)
+//@ nopanic
+
 //@ func (*Response).WriteErrorString
 //@ props C02 C15
 //@ requires r != nil && r.ResponseWriter != nil
